@@ -268,6 +268,13 @@ func (e *modelEnv) tree(v Value, initial bool, depth int) interface{} {
 		case w.identical(x.T, w.P.tMap):
 			m := x.V.(MapRef)
 			out := map[string]interface{}{}
+			if m.Obj == 0 {
+				for i, o := range w.Job.opaque {
+					if w.identical(o.T, w.P.tMap) {
+						return e.opaqueTree(i)
+					}
+				}
+			}
 			if m.Obj != 0 {
 				o := s.heap.get(m.Obj)
 				if initial && o.Doc != nil {
@@ -284,6 +291,13 @@ func (e *modelEnv) tree(v Value, initial bool, depth int) interface{} {
 		case w.identical(x.T, w.P.tSlice):
 			sl := x.V.(Slice)
 			out := []interface{}{}
+			if sl.Obj == 0 {
+				for i, o := range w.Job.opaque {
+					if w.identical(o.T, w.P.tSlice) {
+						return e.opaqueTree(i)
+					}
+				}
+			}
 			if sl.Obj != 0 {
 				o := s.heap.get(sl.Obj)
 				if initial && o.Doc != nil {
@@ -305,7 +319,7 @@ func (e *modelEnv) tree(v Value, initial bool, depth int) interface{} {
 						continue // typed nil pointer vs. non-nil pointer prototype
 					}
 				}
-				return map[string]interface{}{"k": "opaque", "i": i}
+				return e.opaqueTree(i)
 			}
 		}
 		switch reflectName(x.T) {
@@ -349,7 +363,15 @@ func (e *modelEnv) nodeTree(n *DocNode, initial bool, depth int) interface{} {
 // defaultTree picks an arbitrary member of an unresolved node's candidates:
 // the path never inspected it, so every choice behaves the same.
 func (e *modelEnv) defaultTree(n *DocNode, mask uint32) interface{} {
+	// prefer kinds that can carry a value unique to the node, so that moving
+	// or overwriting an uninspected leaf is observable in the concrete run
 	b := mask & -mask
+	for _, pref := range []uint32{KFloat, KString, KNumber, KBool, KNil} {
+		if mask&pref != 0 {
+			b = pref
+			break
+		}
+	}
 	switch b {
 	case KNil, 0:
 		return map[string]interface{}{"k": "nil"}
@@ -370,7 +392,22 @@ func (e *modelEnv) defaultTree(n *DocNode, mask uint32) interface{} {
 		}
 		return map[string]interface{}{"k": "array", "e": out}
 	}
-	return map[string]interface{}{"k": "opaque", "i": bits.TrailingZeros32(b / KOpaque0)}
+	return e.opaqueTree(bits.TrailingZeros32(b / KOpaque0))
+}
+
+// opaqueTree encodes opaque prototype i; nil JSON containers print like empty ones.
+func (e *modelEnv) opaqueTree(i int) interface{} {
+	m := map[string]interface{}{"k": "opaque", "i": i}
+	if i < len(e.s.W.Job.opaque) {
+		o := e.s.W.Job.opaque[i]
+		switch {
+		case e.s.W.identical(o.T, e.s.W.P.tMap):
+			m["r"] = "{}"
+		case e.s.W.identical(o.T, e.s.W.P.tSlice):
+			m["r"] = "[]"
+		}
+	}
+	return m
 }
 
 // renderTree prints a kind-tagged tree in the canonical output format shared
@@ -415,6 +452,9 @@ func renderTree(t interface{}) string {
 	case "raw":
 		return m["r"].(string)
 	case "opaque":
+		if r, ok := m["r"].(string); ok {
+			return r
+		}
 		return fmt.Sprintf("o:%v", m["i"])
 	case "other":
 		return "T:" + m["t"].(string)
